@@ -210,6 +210,23 @@ def generate(seed, tier):
         units = rng.randint(16, 36)
         ram = rng.randint(1, units - 1)
         g.multistage(N, ram, units - ram, rng.choice(["max", "max", "rev"]), comp="stream.multistage.heavy")
+    # a schedule abandoned after a few actions (checkpoints written, none moved out yet), then complete runs of the same class in the same
+    # interpreter: what the abandoned object leaves behind outside itself
+    def abandoned(k):
+        head, _ = g.cases[-1].rsplit(" | ", 1)
+        g.cases[-1] = head + " | " + " ".join(["n"] * k)
+    g.multistage(9, 1, 2, "max", comp="stream.multistage.aftermath.seq"); abandoned(3)
+    g.multistage(2, 1, 0, "max", comp="stream.multistage.aftermath.seq")
+    g.multistage(7, 2, 1, "rev", comp="stream.multistage.aftermath.seq")
+    g.mixed(9, 3, "DISK", "memo", comp="stream.mixed.aftermath.seq"); abandoned(4)
+    g.mixed(5, 2, "RAM", "memo", comp="stream.mixed.aftermath.seq")
+    g.mixed(8, 3, "DISK", "tab", comp="stream.mixed.aftermath.seq"); abandoned(5)
+    g.mixed(6, 2, "DISK", "tab", comp="stream.mixed.aftermath.seq")
+    g.twolevel(9, 3, 2, "RAM", "max", 2, comp="stream.twolevel.aftermath.seq"); abandoned(2)
+    g.twolevel(6, 2, 1, "RAM", "rev", 2, comp="stream.twolevel.aftermath.seq")
+    for kind, N, r, d in [("revolve", 9, 2, 0), ("hrevolve", 10, 1, 2), ("disk", 9, 1, 0), ("periodic", 9, 1, 0)]:
+        g.rev(kind, N, r, d, COSTS[0], comp="stream." + kind + ".aftermath.seq"); abandoned(4)
+        g.rev(kind, N - 3, r, d, COSTS[0], comp="stream." + kind + ".aftermath.seq")
     # very many adjoint calculations on one object (the classes that allow any number): each is an exact repeat of the first
     MANY = 2600 if thorough else 1150
     g.basic("mem", 2, MANY, comp="stream.basic.manypasses")
